@@ -157,6 +157,11 @@ pub struct RefOpts {
     /// still ends the history (the crate would re-evaluate it on the next call; not prescribed).
     /// What is prescribed after such an item is conditional: see `RefTrace::soft_errors`.
     pub continue_after_statement_errors: bool,
+    /// The history is only wanted up to `max_rows` rows: reaching that budget ends the
+    /// prescribed history (`ended` = false) instead of making the case inconclusive. Used for
+    /// rows whose X expansion is astronomically long (11-130 X entries): the first rows are
+    /// prescribed all the same.
+    pub prefix_only: bool,
 }
 
 impl Default for RefOpts {
@@ -168,6 +173,7 @@ impl Default for RefOpts {
             continue_after_row_errors: true,
             fake_draws: false,
             continue_after_statement_errors: true,
+            prefix_only: false,
         }
     }
 }
@@ -183,6 +189,8 @@ enum Cell {
 enum Stop {
     Err(RefErr),
     Budget(String),
+    /// row budget reached in prefix mode: the history ends here, open
+    Prefix,
     /// construct failed / driver error already recorded
     Done,
 }
@@ -441,7 +449,7 @@ impl<'a> Interp<'a> {
         let cs: Vec<usize> = (0..cells.len())
             .filter(|&c| cells[c] == Cell::C && self.col_is_input[c])
             .collect();
-        if xs.len() > 12 {
+        if xs.len() > 12 && !self.opts.prefix_only {
             return Err(Stop::Budget("too many X".into()));
         }
         if !xs.is_empty() && !cs.is_empty() {
@@ -471,10 +479,12 @@ impl<'a> Interp<'a> {
             dup
         };
         let mut exp_index = 0;
-        for a in 0u32..(1u32 << xs.len()) {
+        let total: u128 = if xs.len() >= 127 { u128::MAX } else { 1u128 << xs.len() };
+        let mut a: u128 = 0;
+        while a < total {
             let mut row = cells.clone();
             for (j, &c) in xs.iter().enumerate() {
-                row[c] = Cell::Num(((a >> j) & 1) as i64);
+                row[c] = Cell::Num(if j < 128 { ((a >> j) & 1) as i64 } else { 0 });
             }
             let phases: &[(i64, bool)] = if cs.is_empty() {
                 &[(0, true)]
@@ -492,6 +502,7 @@ impl<'a> Interp<'a> {
                 }
                 exp_index += 1;
             }
+            a += 1;
         }
         Ok(())
     }
@@ -506,7 +517,7 @@ impl<'a> Interp<'a> {
         exp_index: usize,
     ) -> Result<(), Stop> {
         if self.stats.rows >= self.opts.max_rows {
-            return Err(Stop::Budget("row budget".into()));
+            return Err(if self.opts.prefix_only { Stop::Prefix } else { Stop::Budget("row budget".into()) });
         }
         self.stats.rows += 1;
         if self.loop_just_ended {
@@ -936,7 +947,7 @@ pub fn run(p: &Program, sigs: &[Sig], script: &Script, opts: RefOpts) -> RefOutc
                 it.items.push(RefItem::Err(e));
             }
             Err(Stop::Budget(b)) => return RefOutcome::Inconclusive(b),
-            Err(Stop::Done) => {}
+            Err(Stop::Done) | Err(Stop::Prefix) => {}
         }
     }
     let draws_left = it
